@@ -173,6 +173,7 @@ func Load(cfg LoadCfg) (*Prog, error) {
 			}
 		}
 	}
+	buildCallSiteIndex(p)
 	return p, nil
 }
 
